@@ -125,7 +125,7 @@ def run_case(case, ctx):
         Xin, yin, win = layouts.relayout(X, lay), layouts.relayout(y, lay), layouts.relayout(w, lay)
     numpy.random.seed(case["sub"] % (2 ** 31))
     ir = layouts.build(IntervalRegressor, dict(estimator=Rec(base=case["base"]), n_estimators=m, alpha=alpha,
-                                               n_jobs=case["n_jobs"]), via,
+                                               n_jobs=case["n_jobs"]), via, as_numpy_scalars=(case["sub"] // 7) % 3 == 0, decoys=
                        dict(estimator=Rec(base="dummy"), n_estimators=m + 3, alpha=alpha * 0.5 + 0.1, n_jobs=2))
     try:
         r = ir.fit(Xin, yin) if w is None else ir.fit(Xin, yin, sample_weight=win)
